@@ -862,3 +862,81 @@ Example bin_estimate_refuted :
   let est := fun _ : Qc => 0%nat in
   bin_uncorrected edges est (qi 49) = Some 0%nat /\ bin_index edges est (qi 49) = Some 1%nat /\ bin_spec edges (qi 49) = Some 1%nat.
 Proof. vm_compute. repeat split; reflexivity. Qed.
+
+(* ========================================================================================== run-length encoded rows *)
+Lemma get_scale n s b k : get (st_scale n s) b k = (n * get s b k)%Z.
+Proof.
+  unfold get, st_scale.
+  change (@nil Z) with (map (Z.mul n) []) at 1. rewrite map_nth.
+  replace 0%Z with (n * 0)%Z at 1 by lia. rewrite map_nth. reflexivity.
+Qed.
+
+Section RunLength.
+  Variable edges : list Qc.
+  Variable est : Qc -> nat.
+  Variable parts : list Z.
+
+  Lemma get_bsum_app l1 l2 b k :
+    get (hist_bsum edges est parts (l1 ++ l2)) b k
+    = (get (hist_bsum edges est parts l1) b k + get (hist_bsum edges est parts l2) b k)%Z.
+  Proof.
+    unfold hist_bsum, bsum. induction l1 as [|r l1 IH]; cbn [app fold_right].
+    - rewrite get_zero. lia.
+    - rewrite !get_plus, IH. lia.
+  Qed.
+
+  Lemma get_bsum_repeat r m b k :
+    get (hist_bsum edges est parts (repeat r m)) b k = (Z.of_nat m * get (contrib edges est parts r) b k)%Z.
+  Proof.
+    unfold hist_bsum, bsum. induction m as [|m IH]; cbn [repeat fold_right].
+    - rewrite get_zero. lia.
+    - rewrite get_plus, IH. lia.
+  Qed.
+
+  (* the weighted table of the runs is, cell by cell, the table of the expanded row list *)
+  Theorem hist_bsum_w_expand runs b k :
+    get (hist_bsum_w edges est parts runs) b k = get (hist_bsum edges est parts (expand runs)) b k.
+  Proof.
+    unfold hist_bsum_w, expand. induction runs as [|r runs IH]; cbn [fold_right flat_map]; [reflexivity|].
+    rewrite get_plus, get_scale, get_bsum_app, get_bsum_repeat, positive_nat_Z, IH. reflexivity.
+  Qed.
+
+  Hypothesis Hlen : (2 <= length edges)%nat.
+  Hypothesis Hinc : increasing edges.
+
+  Theorem hist_w_correct runs b k : get (hist_bsum_w edges est parts runs) b k = hist_spec_w edges parts runs b k.
+  Proof.
+    unfold hist_bsum_w, hist_spec_w, count_tags_w. induction runs as [|r runs IH]; cbn [fold_right map fst snd].
+    - apply get_zero.
+    - rewrite get_plus, get_scale, IH, (get_contrib edges est parts Hlen Hinc).
+      destruct (tag_hits b k (row_tag edges parts (fst r))); lia.
+  Qed.
+End RunLength.
+
+(* compute() reads a table only through its cells *)
+Lemma mi_code_get_ext phi (t t' : st) bs vs : (forall b k, get t b k = get t' b k) ->
+  q_total t bs vs = q_total t' bs vs /\ q_mi_code phi t bs vs = q_mi_code phi t' bs vs.
+Proof.
+  intros H.
+  assert (Hc : forall b v, q_cnt t b v = q_cnt t' b v) by (intros b v; unfold q_cnt, cnt; rewrite H; reflexivity).
+  assert (Hcb : forall b, q_cb t vs b = q_cb t' vs b) by (intros b; rewrite !q_cb_unfold; apply qsum_map_ext; intros; apply Hc).
+  assert (Hcv : forall v, q_cv t bs v = q_cv t' bs v) by (intros v; rewrite !q_cv_unfold; apply qsum_map_ext; intros; apply Hc).
+  assert (HN : q_total t bs vs = q_total t' bs vs) by (rewrite !q_total_unfold; apply qsum_map_ext; intros; apply Hcb).
+  split; [exact HN|]. rewrite !mi_code_unfold, HN. apply qsum_map_ext. intros v _. rewrite Hcv. f_equal.
+  apply qsum_map_ext. intros b _. rewrite Hc, Hcb. reflexivity.
+Qed.
+
+Theorem comp_get_ext phi nb nc (t t' : st) : (forall b k, get t b k = get t' b k) -> comp phi nb nc t = comp phi nb nc t'.
+Proof.
+  intros H. unfold comp. destruct (mi_code_get_ext phi t t' (seq 0 nb) (seq 0 nc) H) as [HN HM].
+  rewrite HN, HM. reflexivity.
+Qed.
+
+(* hence: histogram and result of a run-length encoded case are those of the expanded trace list *)
+Theorem run_length_is_the_expansion edges est parts phi runs :
+  (forall b k, get (hist_bsum_w edges est parts runs) b k = get (hist_bsum edges est parts (expand runs)) b k)
+  /\ comp phi (nbins edges) (length parts) (hist_bsum_w edges est parts runs)
+     = comp phi (nbins edges) (length parts) (hist_bsum edges est parts (expand runs)).
+Proof.
+  split; [intros b k; apply hist_bsum_w_expand|]. apply comp_get_ext. intros b k. apply hist_bsum_w_expand.
+Qed.
